@@ -104,6 +104,9 @@ func (r *QuotientRing) Quotient(id *Ideal) (*QuotientRing, error) {
 	if id.isGroebner != 1 {
 		id = id.GroebnerBasis()
 		_ = id.ReduceBasis()
+	} else {
+		// Do not re-home the generators of the ideal object given by the caller
+		id = id.Copy()
 	}
 	if r.ring != id.ring {
 		return r, errors.New(
